@@ -4,7 +4,7 @@ use crate::prelude::*;
 use bytes::{Bytes, BytesMut};
 use nix::errno::Errno;
 use nix::fcntl::FcntlArg;
-use std::sync::atomic::AtomicU64;
+use std::sync::atomic::{AtomicBool, AtomicU64};
 use std::{
     os::unix::prelude::{AsRawFd, FileExt},
     time::SystemTime,
@@ -65,7 +65,9 @@ struct FileInner {
     /// appends that have reserved their range (`size` already includes it) and have not finished writing it
     appends_in_flight: AtomicU64,
     /// every byte below this offset has been handed to the kernel: only those are covered by a sync that starts now
-    written_size: AtomicU64
+    written_size: AtomicU64,
+    /// an append has failed: `size` has to fall back to the length of the file once no append is in flight
+    resync_size: AtomicBool
 }
 
 /// Lives as long as an append is between reserving its range and having written it.
@@ -83,8 +85,21 @@ impl<'a> AppendInFlight<'a> {
 impl<'a> Drop for AppendInFlight<'a> {
     fn drop(&mut self) {
         // `size` is read first: an append that reserved below this value and is still running keeps the counter above one
-        let size = self.0.size.load(Ordering::SeqCst);
+        let mut size = self.0.size.load(Ordering::SeqCst);
         if self.0.appends_in_flight.fetch_sub(1, Ordering::SeqCst) == 1 {
+            if self.0.resync_size.swap(false, Ordering::SeqCst) {
+                // Nothing is in flight: the length of the file is where the next record has to go. If somebody has
+                // reserved a range since `size` was read the exchange fails and the next append to finish looks again.
+                match self.0.std_file.metadata() {
+                    Ok(metadata) if self.0.size.compare_exchange(size, metadata.len(), Ordering::SeqCst, Ordering::SeqCst).is_ok() => {
+                        size = metadata.len();
+                    }
+                    _ => {
+                        self.0.resync_size.store(true, Ordering::SeqCst);
+                        return;
+                    }
+                }
+            }
             self.0.written_size.fetch_max(size, Ordering::SeqCst);
         }
     }
@@ -143,10 +158,10 @@ impl File {
     /// The size was advanced by the whole length before the write. After a failure it must again be the length of
     /// the file: a file opened by `IoDriver::open` is in append mode, the kernel puts the next record at the physical
     /// end whatever offset is passed, and the offset is what the record header and the index remember.
+    /// The length is read when the last append in flight is done (`AppendInFlight::drop`): the range of an append that
+    /// is still running (its caller may have been dropped) lies above the physical end until its bytes have landed.
     fn resync_size_after_failed_append(file_inner: &FileInner) {
-        if let Ok(metadata) = file_inner.std_file.metadata() {
-            file_inner.size.store(metadata.len(), Ordering::SeqCst);
-        }
+        file_inner.resync_size.store(true, Ordering::SeqCst);
     }
 
     fn write_data(file: &StdFile, mut offset: u64, writable_data: WritableData) -> IOResult<()> {
@@ -343,7 +358,8 @@ impl File {
                 size,
                 synced_size,
                 appends_in_flight: AtomicU64::new(0),
-                written_size
+                written_size,
+                resync_size: AtomicBool::new(false)
             })
         };
         Ok(file)
